@@ -351,10 +351,38 @@ class Hist:
                     return
                 e = rng.choice(vmf.entities)
                 r = rng.random()
-                if r < 0.5:
+                if r < 0.3:
                     e.fixup[rng.choice(('a', 'B', '$c', 'dd', 'A'))] = rng.randrange(100)
+                elif r < 0.4:
+                    # the other ways of adding variables: the mapping methods
+                    how = rng.randrange(4)
+                    if how == 0:
+                        if rng.random() < 0.6:
+                            # a gap in the indexes first: variables added, an early one deleted again
+                            for nm in ('g1', 'g2', 'g3'):
+                                e.fixup[nm] = nm
+                            del e.fixup[rng.choice(('g1', 'g2'))]
+                        e.fixup.setdefault(rng.choice(('$new', 'a', 'E2', '$zz')), 'dflt')
+                        e.fixup.setdefault('$second_default', 'dflt')
+                    elif how == 1:
+                        e.fixup.update({rng.choice(('u1', '$a', 'U2')): '1', 'u3': '2'})
+                    elif how == 2:
+                        e.fixup.update([('p1', 'x'), ('$B', 'y')], kw1='z')
+                    else:
+                        import pickle as _pickle
+                        import copy as _cp
+                        twin = _pickle.loads(_pickle.dumps(e.fixup)) if rng.random() < 0.5 else _cp.deepcopy(e.fixup)
+                        twin['after_copy'] = '1'
+                        twin.setdefault('$and_more', '2')
+                        tids = [fv.id for fv in twin.copy_values()]
+                        if len(set(tids)) != len(tids) or any(t <= 0 for t in tids):
+                            self.fail(f'map{mi}: a pickled/deep-copied fixup table has the replaceNN indexes {sorted(tids)} after two insertions', f'fixup-index:{op}')
+                            return
+                elif r < 0.45:
+                    e.fixup.clear()
+                    e.fixup['fresh'] = '1'
                 elif r < 0.7:
-                    del e.fixup[rng.choice(('a', 'b', 'c', 'dd'))]
+                    del e.fixup[rng.choice(('a', 'b', 'c', 'dd', 'u3', 'new'))]
                 else:
                     names = rng.sample(['a', 'b', 'c', 'd', 'e', 'f'], rng.randint(2, 6))
                     e2 = Entity(vmf, keys={'classname': 'func_instance'}, fixup=[FixupValue(v, 'x', rng.choice((1, 1, 2, 2, 3, 4, 7, 99, 0, 0, -1, 100))) for v in names])
